@@ -41,7 +41,7 @@ from . import imgs
 from .env import stubs
 from .tlc import MachineryError
 
-ROOT = imgs.TMP / "c11"
+ROOT = imgs.TMP / f"c11-{os.getpid()}"  # per process: checks may run concurrently
 LIB = ROOT / "lib"  # files the library opens
 CALLER = ROOT / "caller"  # files the caller opens (PIL-image sources)
 SHADOW = ROOT / "shadow"  # files of the paired (opposite cache setting) iterator
@@ -257,8 +257,9 @@ class Seams:
         seams = self
 
         def _render_image(self, *a, **kw):
+            r = orig(self, *a, **kw)  # the end-of-pass probe raises EOFError in here
             seams.render_calls += 1
-            return orig(self, *a, **kw)
+            return r
 
         cls._render_image = _render_image
         cls._c11_counted = True
@@ -285,12 +286,20 @@ def setup(seed: int) -> Server:
     return _SERVER
 
 
+def refreeze():
+    """Exempt everything alive now (edge graphs, recorded traces, render tables) from later
+    collections; call between worlds only (after a full collection)."""
+    gc.collect()
+    gc.freeze()
+
+
 def teardown():
     global _SERVER
     if _SERVER:
         _SERVER.stop()
         _SERVER = None
     gc.unfreeze()
+    shutil.rmtree(ROOT, ignore_errors=True)
 
 
 # ----------------------------------------------------------------------------- configs
